@@ -45,7 +45,7 @@ def variants():
 
 
 def budget(tier):
-    return 150 if tier == "quick" else 3000
+    return 220 if tier == "quick" else 3000
 
 
 IOMAX = [3, 3, 4, 5, 8, 16, 32, 128, 1]
@@ -81,7 +81,7 @@ def decode_diff(raw):
     pend_steps = [gen.decode_fs(t, bs, nd, odd=False, links=False) for t in pend]
     sl = [{"depth": DEPTHS[a % len(DEPTHS)], "jitter": b, "multi_scan": c % 3 != 0} for a, b, c in scheds]
     return {"kind": "diff", "cfg": cfg, "base": base_steps, "pending": pend_steps, "command": ["sync", "sync", "scrub", "sync_prehash"][cmd % 4], "dseed": dseed,
-            "silent": dseed % 3 == 0, "schedules": sl}
+            "silent": dseed % 2 == 0, "schedules": sl}
 
 
 def strategy(tier):
